@@ -471,8 +471,8 @@ class CfgCtl:
         self.closed = False
         ch = sim.ctx.ch
         # shape: blocks 0..n-1 (0 = entry); succ[b] = list of targets (block index or "exit")
-        shape = ch.draw(4, "cfg-shape")
-        n = {0: 1 + ch.draw(3, "cfg-n"), 1: 4, 2: 3, 3: 3}[shape]
+        shape = ch.draw(5, "cfg-shape")
+        n = {0: 1 + ch.draw(3, "cfg-n"), 1: 4, 2: 3, 3: 3, 4: 2}[shape]
         if shape == 0:  # chain
             succ = {i: [i + 1] for i in range(n - 1)}
             succ[n - 1] = ["exit"]
@@ -480,8 +480,10 @@ class CfgCtl:
             succ = {0: [1, 2], 1: [3], 2: [3], 3: ["exit"]}
         elif shape == 2:  # loop with back edge 0 -> 1 -> (1 | 2) -> exit
             succ = {0: [1], 1: [1, 2], 2: ["exit"]}
-        else:  # multi-exit 0 -> (1 | exit), 1 -> (2 | exit), 2 -> exit
+        elif shape == 3:  # multi-exit 0 -> (1 | exit), 1 -> (2 | exit), 2 -> exit
             succ = {0: [1, "exit"], 1: [2, "exit"], 2: ["exit"]}
+        else:  # both branches of the entry lead to the same block (parallel control-flow edges), then both to exit
+            succ = {0: [1, 1], 1: ["exit", "exit"]}
         self.n = n
         self.succ = succ
         self.shape = shape
